@@ -688,6 +688,12 @@ func (d *indexData) regexpToMatchTreeRecursive(r *syntax.Regexp, minTextSize int
 		if len(qs) == 0 {
 			return &noMatchTree{Why: "const"}, isEq, false, nil
 		}
+		// An or of substrings reports the longest alternative at an offset, the
+		// regexp its first one: they only agree if no two alternatives can
+		// match at the same position.
+		if isEq && !alternativesDisjoint(r.Sub, caseSensitive) {
+			isEq = false
+		}
 		return &orMatchTree{qs}, isEq, false, nil
 	case syntax.OpStar:
 		if r.Sub[0].Op == syntax.OpAnyCharNotNL {
@@ -695,6 +701,34 @@ func (d *indexData) regexpToMatchTreeRecursive(r *syntax.Regexp, minTextSize int
 		}
 	}
 	return &bruteForceMatchTree{}, false, false, nil
+}
+
+// alternativesDisjoint reports whether the alternatives are literals none of
+// which is a prefix of another (ignoring case unless caseSensitive), i.e.
+// whether at most one of them can match at any position.
+func alternativesDisjoint(subs []*syntax.Regexp, caseSensitive bool) bool {
+	lits := make([]string, 0, len(subs))
+	for _, sub := range subs {
+		for sub.Op == syntax.OpCapture {
+			sub = sub.Sub[0]
+		}
+		if sub.Op != syntax.OpLiteral {
+			return false
+		}
+		lit := string(sub.Rune)
+		if !caseSensitive || sub.Flags&syntax.FoldCase != 0 {
+			lit = strings.ToLower(lit)
+		}
+		lits = append(lits, lit)
+	}
+	for i, a := range lits {
+		for j, b := range lits {
+			if i != j && strings.HasPrefix(b, a) {
+				return false
+			}
+		}
+	}
+	return true
 }
 
 type timer struct {
